@@ -574,6 +574,7 @@ proof fn lemma_flags(e: bool, o: bool) ensures flag_empty(theta_flags(e, o)) == 
 }
 
 // C11 at spec level: the v3 spec decoder inverts the v3 spec encoder on every well-formed state
+#[verifier::spinoff_prover]
 proof fn lemma_theta_v3_roundtrip(x: ThetaImg, sh: u16)
   requires wf_img(x), x.entries.len() <= 0x0fff_ffff, x.empty || x.seed_hash == sh,
   ensures /*@C11.theta.v3*/ decode_spec(enc_theta_v3(x), sh) == Some(x),
@@ -661,6 +662,7 @@ else {
 
 
 
+    #[verifier::spinoff_prover]   // fresh z3 per function: the shared prover slows down badly after the expected failures
     fn serialize ( & self ) -> ( r : Vec < u8 > ) requires self . entries @ . len ( ) <= 0x0fff_ffff ensures
 /*@C12.theta.v3*/ r @ == enc_theta_v3 ( self . img ( ) ) {
 let mut bytes = SketchBytes :: with_capacity ( 64 + self . entries . len ( ) * 8 ) ;
@@ -736,6 +738,7 @@ self . ordered && ! self . entries . is_empty ( ) && ( self . entries . len ( ) 
 
 
 
+    #[verifier::spinoff_prover]   // fresh z3 per function: the shared prover slows down badly after the expected failures
     fn serialize_v4 ( & self ) -> ( r : Vec < u8 > ) requires self . wf ( ) , v4_suitable ( self . img ( ) ) , self . entries @ . len ( ) <= 0x0fff_ffff ensures
 /*@C12.theta.v4_header*/ is_v4_image_of ( r @ , self . img ( ) ) {
 let pre_longs = self . preamble_longs ( true ) ;
@@ -897,6 +900,7 @@ bits . div_ceil ( 8 ) as u8 }
 
 
 
+    #[verifier::spinoff_prover]   // fresh z3 per function: the shared prover slows down badly after the expected failures
     fn read_entries ( cursor : & mut SketchSlice < '_ > , num_entries : usize , theta : u64 , ) -> ( r : Result < Vec < u64 > , Error > ) ensures
 /*@C13.theta.entries*/ r matches Ok ( v ) ==> old ( cursor ) . rem ( ) . len ( ) >= 8 * num_entries && v @ == dec_u64s ( old ( cursor ) . rem ( ) , num_entries as nat ) && final ( cursor ) . rem ( ) == old ( cursor ) . rem ( ) . skip ( 8 * num_entries as int ) ,
 /*@C14.theta.entries_valid*/ r matches Ok ( v ) ==> all_valid ( v @ , theta ) ,
@@ -968,6 +972,7 @@ match ser_ver {
 
 
 
+    #[verifier::spinoff_prover]   // fresh z3 per function: the shared prover slows down badly after the expected failures
     fn deserialize_v1 ( mut cursor : SketchSlice < '_ > , expected_seed : u64 ) -> ( r : Result < Self , Error > ) ensures
 /*@C13.theta.v1*/ decode_spec_v1 ( cursor . rem ( ) , seed_hash_of ( expected_seed ) ) matches Some ( x ) ==> ( r matches Ok ( s ) && s . img ( ) == x ) ,
 /*@C13.theta.v1_sound*/ r matches Ok ( s ) ==> decode_spec_v1 ( cursor . rem ( ) , seed_hash_of ( expected_seed ) ) == Some ( s . img ( ) ) ,
@@ -1001,6 +1006,7 @@ entries , theta , seed_hash , ordered : true , empty : false , }
 
 
 
+    #[verifier::spinoff_prover]   // fresh z3 per function: the shared prover slows down badly after the expected failures
     fn deserialize_v2 ( pre_longs : u8 , mut cursor : SketchSlice < '_ > , expected_seed : u64 , ) -> ( r : Result < Self , Error > ) ensures
 /*@C13.theta.v2*/ decode_spec_v2 ( cursor . rem ( ) , pre_longs , seed_hash_of ( expected_seed ) ) matches Some ( x ) ==> ( r matches Ok ( s ) && s . img ( ) == x ) ,
 /*@C13.theta.v2_sound*/ r matches Ok ( s ) ==> decode_spec_v2 ( cursor . rem ( ) , pre_longs , seed_hash_of ( expected_seed ) ) == Some ( s . img ( ) ) ,
@@ -1053,6 +1059,7 @@ _ => Err ( Error :: invalid_preamble_longs ( & [ 1 , 2 , 3 ] , pre_longs ) ) , }
 
 
 
+    #[verifier::spinoff_prover]   // fresh z3 per function: the shared prover slows down badly after the expected failures
     fn deserialize_v3 ( pre_longs : u8 , mut cursor : SketchSlice < '_ > , expected_seed : u64 , ) -> ( r : Result < Self , Error > ) requires 1 <= pre_longs <= 3 , ensures
 /*@C13.theta.v3*/ decode_spec_v3 ( cursor . rem ( ) , pre_longs , seed_hash_of ( expected_seed ) ) matches Some ( x ) ==> ( r matches Ok ( s ) && s . img ( ) == x ) ,
 /*@C13.theta.v3_sound*/ r matches Ok ( s ) ==> decode_spec_v3 ( cursor . rem ( ) , pre_longs , seed_hash_of ( expected_seed ) ) == Some ( s . img ( ) ) ,
@@ -1105,6 +1112,7 @@ entries , theta , seed_hash , ordered , empty , }
 ) }
 
 
+    #[verifier::spinoff_prover]   // fresh z3 per function: the shared prover slows down badly after the expected failures
     fn deserialize_v4 ( pre_longs : u8 , mut cursor : SketchSlice < '_ > , expected_seed : u64 , ) -> ( r : Result < Self , Error > ) ensures
 /*@C14.theta_v4.total*/ r matches Ok ( s ) ==> all_valid ( s . entries @ , s . theta ) , {
 let entry_bits = cursor . read_u8 ( ) . vx_io ( "entry_bits" ) ? ;
